@@ -1,4 +1,5 @@
 import Wee.Proofs.MateLemmas
+import Wee.Proofs.BoundaryPoll
 /-!
 # C06: the root call and the report of one iteration
 
@@ -568,6 +569,12 @@ of the root, a winning remembered evaluation is true -/
 def IterOK (K : Keys) (D : State → Prop) (L nT nB : Nat) (root : State) (st : IterSt) : Prop :=
   TTInv K D L nT nB st.tt ∧ BestOK root st.bestMv ∧ (Ev.posInf ≤ st.bestEval → Win root)
 
+/-- the boundary read of the flag touches neither the table nor the remembered move and evaluation -/
+theorem IterOK.boundaryPoll {K : Keys} {D : State → Prop} {L nT nB : Nat} {root : State} {st : IterSt}
+    (h : IterOK K D L nT nB root st) (ctx : Ctx) (depth : Nat) :
+    IterOK K D L nT nB root (boundaryPoll ctx depth st) := by
+  unfold IterOK; rw [boundaryPoll_tt, boundaryPoll_bestMv, boundaryPoll_bestEval]; exact h
+
 theorem drawSeeds_one (r : Rng.ChaCha8) : ∃ v, (drawSeeds 1 r).1 = [v] := by
   rw [drawSeeds.eq_2]
   rcases Rng.nextU64 r with ⟨v, r'⟩
@@ -750,10 +757,15 @@ theorem iterLoop_sound (rootHash : UInt64) (hrh : rootHash = hash K root)
     exact ⟨h, [], (List.append_nil _).symm, fun _ h => (nomatch h), fun _ _ h => (nomatch h)⟩
   | succ n ih =>
     intro depth st h
-    rw [iterLoop.eq_2]
+    -- the boundary read of the flag touches neither the table nor the remembered move/evaluation nor the events
+    have hb : IterOK ctx.keys D L nT nB root (boundaryPoll ctx depth st) := h.boundaryPoll ctx depth
+    rw [iterLoop_succ]
     split
     · exact ⟨h, [], (List.append_nil _).symm, fun _ h => (nomatch h), fun _ _ h => (nomatch h)⟩
-    · obtain ⟨h1, new1, e1, c1, k1⟩ := iterStep_sound g dom ctx rfl root hD rootHash hrh hhist (workersOf depth) depth st h
+    split
+    · exact ⟨hb, [], by rw [boundaryPoll_events, List.append_nil], fun _ h => (nomatch h), fun _ _ h => (nomatch h)⟩
+    · obtain ⟨h1, new1, e1, c1, k1⟩ := iterStep_sound g dom ctx rfl root hD rootHash hrh hhist (workersOf depth) depth _ hb
+      rw [boundaryPoll_events] at e1
       obtain ⟨h2, new2, e2, c2, k2⟩ := ih (depth + 1) _ h1
       refine ⟨h2, new1 ++ new2, by rw [e2, e1, List.append_assoc], fun ev hev => ?_, fun hw ev hev => ?_⟩
       · rcases List.mem_append.1 hev with h' | h'
